@@ -431,6 +431,37 @@ func c20PolyField[S algebra.PrimeFieldElement[S]](c *Ctx, f algebra.PrimeField[S
 				}
 			}
 		}
+		// ---- Birkhoff matrices of high degree: the entries t!/(t-j)!·x^(t-j) exceed every machine word
+		// (degree and derivative order far beyond the small exhaustive range); matrix only, no Cramer.
+		if it%6 == 0 {
+			n := []int{20, 22, 24, 27, 31, 33, 40}[r.IntN(7)]
+			xs := make([]S, n)
+			js := make([]uint64, n)
+			for i := range n {
+				xs[i] = f.FromUint64(uint64(1 + r.IntN(2*n)))
+				switch r.IntN(3) {
+				case 0:
+					js[i] = uint64(n - 1 - r.IntN(4))
+				case 1:
+					js[i] = uint64(r.IntN(n))
+				default:
+					js[i] = 0
+				}
+			}
+			res := safely(func() string {
+				m, err := birkhoff.BuildVandermondeMatrix(xs, js, n)
+				if err != nil {
+					return c20ErrClass(err)
+				}
+				out := []S{}
+				for e := range m.Iter() {
+					out = append(out, e)
+				}
+				return scalarsHex(out)
+			})
+			c.Count("birkhoff.matrix.deep")
+			c.Emit(fmt.Sprintf("birkhoffMatrix %s %s %s %d", p, scalarsHex(xs), decList(js), n), res)
+		}
 		// ---- Birkhoff
 		{
 			n := 1 + r.IntN(maxN-1)
